@@ -209,7 +209,13 @@ func checkC19(c *Ctx) {
 			}
 		}
 		if newSink == nil || len(closeAll) == 0 {
-			c.Und("R19.1", name, "record", open.Pos(), "cannot find the newSink call / a function that closes every recorded sink")
+			if newSink != nil {
+				// sinks are opened, but nothing closes them all: a loop that can stop early (at the first Close error, say)
+				// leaves the later sinks open when Open fails
+				c.Bad("R19.1", name, "closes-every-recorded-sink", open.Pos(), "no function of package zap closes EVERY recorded sink (a loop over the closers with no early exit)")
+			} else {
+				c.Und("R19.1", name, "record", open.Pos(), "cannot find the newSink call")
+			}
 		} else {
 			resolve := func(st *ConcState, v ssa.Value) ssa.Value {
 				v = Strip(v)
